@@ -1,6 +1,7 @@
 import Driver.Parse
 import RTA.Model.XCurve
 import RTA.Model.Ros
+import RTA.Model.XCost
 /-! Line-protocol driver: one operation per input line, one result per output line. -/
 
 namespace RTA.Driver
@@ -26,6 +27,11 @@ def withRB (r : Option RB) (g : RB → Bool) (f : RB → String) : String :=
   match r with
   | some r => if r.arrWF && g r then f r else "panic"
   | none => "panic"
+
+def pXCostOp : Parser XCostOp
+  | "coj" :: ts => do let (n, ts) ← pNat ts; pure (.coj n, ts)
+  | "lw" :: ts => do let (n, ts) ← pNat ts; pure (.least n, ts)
+  | _ => none
 
 def pXOp : Parser XOp
   | "na" :: ts => do let (d, ts) ← pNat ts; pure (.na d, ts)
@@ -162,6 +168,22 @@ def evalOp : List String → Option String
     if ¬ curveWF d then pure "panic" else
     let outs := (XState.init d).run ops
     pure ("[" ++ ",".intercalate (outs.map fun o => match o with | some v => toString v | none => "-") ++ "]")
+  | "xcops" :: ts => do
+    let (w, ts) ← pList pNat ts
+    let (m, ts) ← pNat ts
+    let (ops, _) ← pRep pXCostOp m ts
+    -- guards: least_wcet on an empty vector / non-monotone neighbours
+    let rec go (w : List Nat) : List XCostOp → Option (List Nat)
+      | [] => some []
+      | op :: rest =>
+        let okGuard := match op with
+          | .least n => costLeastGuard w n
+          | .coj _ => true
+        if okGuard then
+          let (w', out) := xcostStep w op
+          (go w' rest).map (out :: ·)
+        else none
+    pure (match go w ops with | some outs => listToStr outs | none => "panic")
   | "maxrt" :: ts => do
     let (rs, _) ← pList pRes ts
     pure (maxResponseTime rs).toStr
